@@ -416,6 +416,57 @@ func (w *proxyWorld) originHandler(rw http.ResponseWriter, req *http.Request) {
 		}
 		w.mu.Unlock()
 	}
+	if conn := h.Values("Connection"); len(conn) > 0 {
+		// net/http's server rewrites a handler-set Connection header when the request said
+		// "Connection: close"; write the response by hand so that the nominated names are on the wire
+		if hj, ok := rw.(http.Hijacker); ok {
+			c, _, err := hj.Hijack()
+			if err == nil {
+				var b bytes.Buffer
+				fmt.Fprintf(&b, "HTTP/1.1 %d %s\r\n", status, http.StatusText(status))
+				names := make([]string, 0, len(h))
+				for k := range h {
+					names = append(names, k)
+				}
+				sort.Strings(names)
+				for _, k := range names {
+					if k == "Connection" || k == "Content-Length" {
+						continue
+					}
+					for _, v := range h[k] {
+						fmt.Fprintf(&b, "%s: %s\r\n", k, v)
+					}
+				}
+				if !r.NoDate {
+					fmt.Fprintf(&b, "Date: %s\r\n", now.UTC().Format(http.TimeFormat))
+				}
+				// an origin that was asked to close says so, next to its own nominations
+				askedClose := req.Close || strings.Contains(strings.ToLower(strings.Join(req.Header.Values("Connection"), ",")), "close")
+				if askedClose {
+					fmt.Fprintf(&b, "Connection: %s, close\r\n", strings.Join(conn, ", "))
+					e.RespHdr.Add("X-Sim-Wire-Connection-Close", "1")
+				} else {
+					fmt.Fprintf(&b, "Connection: %s\r\n", strings.Join(conn, ", "))
+				}
+				bodyLen := len(out)
+				if req.Method == http.MethodHead {
+					bodyLen = len(full)
+				}
+				if status != 304 && status != 204 {
+					fmt.Fprintf(&b, "Content-Length: %d\r\n", bodyLen)
+				}
+				b.WriteString("\r\n")
+				if req.Method != http.MethodHead {
+					b.Write(out)
+				}
+				c.Write(b.Bytes())
+				c.Close()
+				e.Finished = true
+				e.DoneSeq = w.nextSeq()
+				return
+			}
+		}
+	}
 	rw.WriteHeader(status)
 	fl, _ := rw.(http.Flusher)
 	if len(out) == 0 {
